@@ -277,6 +277,7 @@ func checkC07(r *Run) {
 			}
 		}
 	})
+	c07CSS(r, &st)
 	r.Count("builds", int(st.builds))
 	r.Count("builds_rejected(generator defect, skipped)", int(st.rejected))
 	r.Count("transforms", int(st.transforms))
